@@ -315,7 +315,8 @@ Section Get.
     { intros i Hi. specialize (Hfree i Hi). rewrite (abs_alloc_testbit g WF l Inv) in Hfree.
       destruct (in_huge_divmod h i) as (Ed & Em); [lia|].
       rewrite (alloc_at_eq l i e rows) in Hfree by (rewrite Ed; assumption).
-      rewrite Em in Hfree. destruct (N.ltb_spec i (frames l)); [exact Hfree|lia]. }
+      rewrite Em in Hfree. destruct (N.ltb_spec i (frames l)) as [|Hge]; [exact Hfree|].
+      exfalso. clear - Hge Hi Hr. lia. }
     assert (Hne : e <> MARK).
     { intros ->. specialize (Hbit f). rewrite e_huge_MARK in Hbit. cbn [orb] in Hbit.
       assert (true = false) by (apply Hbit; lia). discriminate. }
@@ -464,10 +465,13 @@ Section Get.
     destruct (aligned_huge f k Hk Hal) as (Ef & Ehm). split; [exact Ef|]. split; [exact Ehm|].
     assert (Epow : pow2 k = pow2 (k - hord g) * HF g) by (rewrite HF_pow2; apply pow2_split, Hk).
     set (h := f / HF g) in *. set (hn := pow2 (k - hord g)) in *.
-    intros h' Hh'. apply (free_huge_entry l h' Inv).
-    - rewrite Ef, Epow in Hr. nia.
+    intros h' Hh'.
+    assert (M1 : h * HF g <= h' * HF g) by (apply N.mul_le_mono_r; lia).
+    assert (M2 : (h' + 1) * HF g <= (h + hn) * HF g) by (apply N.mul_le_mono_r; lia).
+    apply (free_huge_entry l h' Inv).
+    - rewrite Ef, Epow in Hr. clear - Hr M2. lia.
     - intros i Hi. rewrite <- (abs_alloc_testbit g WF l Inv). apply Hfree.
-      rewrite Ef, Epow. nia.
+      rewrite Ef, Epow. clear - Hi M1 M2. lia.
   Qed.
 
   Lemma huge_index_fits h k : (hord g <= k)%nat -> (k <= tord g)%nat -> h mod pow2 (k - hord g) = 0 ->
@@ -586,8 +590,9 @@ Section Get.
             as (En & Ea & Inv').
           replace (f / HF g * HF g + f mod HF g) with f in En, Ea
             by (pose proof (N.div_mod f (HF g) (HF_nz g)); lia).
-          pose proof (small_step_tree_free l _ e (e - pow2 k) rows' He Hne ltac:(lia) HleHF) as Htf.
-          rewrite <- div_TF in Htf. replace (e - (e - pow2 k)) with (pow2 k) in Htf by lia.
+          pose proof (small_step_tree_free l _ e (e - pow2 k) rows' He Hne (N.le_sub_l e (pow2 k)) HleHF) as Htf.
+          assert (Ee : e - (e - pow2 k) = pow2 k) by (clear - Hle; lia).
+          rewrite <- div_TF, Ee in Htf.
           left. split; [exact En|]. eexists. split; [reflexivity|].
           split; [exact Ea|]. split; [exact Inv'|]. split; [reflexivity|exact Htf].
         * destruct (e_inc g (e - pow2 k) (pow2 k)) eqn:Hi;
@@ -638,8 +643,9 @@ Section Get.
       pose proof (pow2_pos k). destruct (in_huge_divmod h (h * HF g + off)) as (Ed & _); [lia|].
       destruct (LowerInv_huge_ok g l h e rows Inv He Hb) as (_ & _ & Hcnt & _).
       destruct (Hcnt Hne) as (_ & HleHF).
-      pose proof (small_step_tree_free l h e (e - pow2 k) rows' He Hne ltac:(lia) HleHF) as Htf.
-      replace (e - (e - pow2 k)) with (pow2 k) in Htf by lia.
+      pose proof (small_step_tree_free l h e (e - pow2 k) rows' He Hne (N.le_sub_l e (pow2 k)) HleHF) as Htf.
+      assert (Ee : e - (e - pow2 k) = pow2 k) by (clear - Hle; lia).
+      rewrite Ee in Htf.
       eexists. eexists. split; [reflexivity|].
       split; [|split; [exact En|split; [exact Ea|split; [exact Inv'|split; [reflexivity|]]]]].
       + rewrite div_TF, Ed. apply tree_of_huge. exact Hh.
@@ -880,7 +886,7 @@ Module Examples.
   Example ex_results :
     (fst (lower_get g9 l0 0 0), fst (lower_get g9 l1 17 3), fst (lower_get_at g9 l2 2048 10),
      fst (lower_get_at g9 l3 4608 7), fst (lower_get g9 l4 64 9))
-    = (Ok 0, Ok 1024, Ok tt, Ok tt, Ok 4096).
+    = (Ok 0, Ok 1088, Ok tt, Ok tt, Ok 4096).
   Proof. vm_compute. reflexivity. Qed.
 
   Example ex_inv : lower_invb g9 l5 = true.
@@ -891,15 +897,15 @@ Module Examples.
   (* lower_get: preconditions hold and both outcomes occur on l5 *)
   Example ex_get_pre : (3 <= tord g9)%nat /\ (20 * 64) / TF g9 < ntab g9 (frames l5).
   Proof. vm_compute. split; [lia|reflexivity]. Qed.
-  Example ex_get_ok : fst (lower_get g9 l5 20 3) = Ok 1032.
+  Example ex_get_ok : fst (lower_get g9 l5 20 3) = Ok 1280.
   Proof. vm_compute. reflexivity. Qed.
   Example ex_get_ok_spec :
-    spec_get_enabled (abs g9 l5) 1032 3 = true /\
-    abs g9 (snd (lower_get g9 l5 20 3)) = spec_get g9 (abs g9 l5) 1032 3.
+    spec_get_enabled (abs g9 l5) 1280 3 = true /\
+    abs g9 (snd (lower_get g9 l5 20 3)) = spec_get g9 (abs g9 l5) 1280 3.
   Proof.
     destruct (lower_get g9 l5 20 3) as [r l'] eqn:E.
-    assert (Er : r = Ok 1032) by (change r with (fst (r, l')); rewrite <- E; apply ex_get_ok). subst r.
-    destruct (lower_get_ok g9 wf9 l5 20 3 1032 l' inv5 ltac:(cbn; lia) (proj2 ex_get_pre) E)
+    assert (Er : r = Ok 1280) by (change r with (fst (r, l')); rewrite <- E; apply ex_get_ok). subst r.
+    destruct (lower_get_ok g9 wf9 l5 20 3 1280 l' inv5 ltac:(cbn; lia) (proj2 ex_get_pre) E)
       as (_ & En & Ea & _). split; assumption.
   Qed.
   (* tree 0 has no free block of order 11 (frame 0 is allocated), tree 2 none of order 10 *)
@@ -932,6 +938,6 @@ Module Examples.
   (* lower_get_opt *)
   Example ex_get_opt : fst (lower_get_opt g9 l5 20 0 (Some 1)) = Ok 1 /\
                        fst (lower_get_opt g9 l5 20 0 (Some 0)) = Err EMemory /\
-                       fst (lower_get_opt g9 l5 20 0 None) = Ok 1040.
+                       fst (lower_get_opt g9 l5 20 0 None) = Ok 1280.
   Proof. vm_compute. repeat split; reflexivity. Qed.
 End Examples.
